@@ -68,17 +68,17 @@ def reference(A0, w, L, alpha_np, b2, b3, gamma, ppk):
 
 @st.composite
 def s_case(draw, quick=True):
-    N = draw(st.sampled_from([64, 128, 256, 512, 1024, 100, 250]))
+    N = draw(st.sampled_from([64, 128, 256, 512, 1024, 100, 250, 125, 245, 75]))
     lo = -2.3 if quick else -3.3
     return {"N": N, "kind": draw(st.sampled_from(["gauss-train", "nrz-train", "lowpass-random", "gauss-train"])), "seed": draw(st.integers(0, 2 ** 31 - 1)),
-            "sps": draw(st.sampled_from([8, 16, 32])), "R": draw(st.sampled_from([2.5e9, 10e9, 25e9])), "logp": draw(st.floats(-4, np.log10(0.5))),
+            "sps": draw(st.sampled_from([8, 16, 32, 5, 7] if N in (125, 245, 75) else [8, 16, 32])), "R": draw(st.sampled_from([2.5e9, 10e9, 25e9])), "logp": draw(st.floats(-4, np.log10(0.5))),
             "L": draw(st.floats(1, 100)), "alpha": draw(st.one_of(st.just(0.0), st.floats(0, 0.5), st.floats(0.05, 0.5))),
             "mode": draw(st.sampled_from(["nlse", "nlse", "nlse", "nlse", "spm", "spm", "linear", "any", "b3only", "b2only", "weak", "weak"])),
             "weaklogp": draw(st.floats(-12, -4)),
             "b2": draw(st.floats(-25, 25)), "b3": draw(st.one_of(st.just(0.0), st.just(0.0), st.floats(-0.2, 0.2))), "gamma": draw(st.floats(0.05, 5)),
             "phis": sorted({round(10 ** draw(st.floats(lo, -1)), 6) for _ in range(3)} | {0.1 if quick else 0.05}, reverse=True),
             "layout": draw(st.sampled_from(["1pol", "1pol", "2pol-yempty", "2pol-copy", "2pol-indep"])), "lead": draw(st.sampled_from(["none", "none", "zeros", "weak"])),
-            "nl_target": draw(st.floats(0.2, 10))}
+            "nl_target": draw(st.floats(0.2, 10)), "gvN": draw(st.booleans()), "many": False}
 
 
 def slot_rate(c):
@@ -148,9 +148,16 @@ def fiber(x, L, alpha, b2, b3, gamma, phi):
 
 def e_case(c):
     reset()
+    if c.get("many"):
+        # runs of 5000 and ~20000 split steps (total nonlinear phase 9.9 rad at phi_max = 2e-3 and 5e-4), no loss
+        c = dict(c, N=256, phis=[2e-3, 5e-4], nl_target=9.9, mode="nlse", alpha=0.0, lead="none", logp=-0.5, L=10.0 + c["seed"] % 5, b3=0.0,
+                 b2=c["b2"] if abs(c["b2"]) >= 5 else 20.0, layout="1pol", kind="gauss-train", R=2.5e9, sps=16)
     a, fs, rs = make_field(c)
     N = a.size
-    gv(sps=c["sps"], R=slot_rate(c))
+    if c.get("gvN") and N % c["sps"] == 0:
+        gv(sps=c["sps"], R=slot_rate(c), N=N // c["sps"])       # a slot count matching the record is configured too
+    else:
+        gv(sps=c["sps"], R=slot_rate(c))
     ppk = float(np.max(np.abs(a) ** 2))
     L, alpha, b2, b3 = c["L"], c["alpha"], c["b2"], c["b3"]
     gamma = c["gamma"]
@@ -167,7 +174,7 @@ def e_case(c):
         L = max(L, 50.0)
     elif mode == "b2only":
         b3 = 0.0
-    if mode != "weak" and (gamma * ppk * L > 10 or (gamma > 0 and gamma * ppk * L < 0.05)):
+    if mode != "weak" and (c.get("many") or gamma * ppk * L > 10 or (gamma > 0 and gamma * ppk * L < 0.05)):
         gamma = min(5.0, c["nl_target"] / (ppk * L))          # keep the total nonlinear phase within the quantifier (<= 10 rad) and visible
     phinl = gamma * ppk * L
     layout = c["layout"]
@@ -240,7 +247,7 @@ def e_case(c):
                 if sens > 5 * (C_CONV * phi + 1e-6):
                     cls.append("bound-bites")
                 if True:
-                    check(e_ <= C_CONV * phi + 1e-6, "nlse-error>C*phi_max", f"phi_max={phi}: rel err {e_:.3e} > {C_CONV * phi:.3e}; gamma*P*L={phinl:.2f} disp={disp_phase:.2f} rad steps~{steps[phi] // 2}")
+                    check(e_ <= C_CONV * phi + 1e-6, "nlse-error>C*phi_max", f"phi_max={phi}: rel err {e_:.3e} > {C_CONV * phi:.3e}; gamma*P*L={phinl:.2f} disp={disp_phase:.2f} rad steps~{steps[phi]}")
             # convergence as phi_max -> 0: a 4x smaller phi_max must not leave the error where it was (asymptotic regime only)
             ps = sorted(errs, reverse=True)
             for i_, pa in enumerate(ps):
@@ -256,20 +263,31 @@ def e_case(c):
             cls.append("ratio<=1" if max(e_ / p for p, e_ in errs.items()) <= 1 else "ratio<=5" if max(e_ / p for p, e_ in errs.items()) <= 5 else "ratio<=25")
         else:
             cls.append("reference-not-converged")
+    # the solution does not depend on a slot count configured in gv: same call without N
+    if c.get("gvN") and N % c["sps"] == 0:
+        reset()
+        gv(sps=c["sps"], R=slot_rate(c))
+        phi = c["phis"][0]
+        y3, _ = fiber(x, L, alpha, b2, b3, gamma, phi)
+        err = np.max(np.abs(y3.signal - outs[phi])) / max(np.max(np.abs(outs[phi])), 1e-300)
+        check(err <= 1e-9, "result-depends-on-gv.N", f"phi_max={phi}: rel diff {err:.3e} between gv(N={N // c['sps']}) and no N; N*sps={N} {'odd' if N % 2 else 'even'}")
+        cls.append("gvN-odd" if N % 2 else "gvN-even")
     g.verify()
     g.no_alias([("FIBER.signal", outs[c["phis"][0]])])
     g.release()
-    nstep = max(steps.values()) // 2
+    nstep = max(steps.values())          # one forward FFT per split step
     nt = (phinl >= 0.5 and disp_phase >= 0.5 and "nlse-sensitive" in cls) or (alpha * L >= 1) or c["lead"] != "none"
-    return {"nontrivial": bool(nt), "classes": cls + [layout, c["lead"], c["kind"], "1-step" if nstep <= 1 else "<=100-steps" if nstep <= 100 else ">100-steps",
+    return {"nontrivial": bool(nt), "classes": cls + [layout, c["lead"], c["kind"], "1-step" if nstep <= 1 else "<=100-steps" if nstep <= 100 else ">100-steps" if nstep <= 10000 else ">10000-steps",
                                                    "lossy" if alpha * L >= 1 else "low-loss", "gamma0" if gamma == 0 else "nl"]}
 
 
-def e_quick(c):
-    return e_case(c)
+def e_many(c):
+    return e_case(dict(c, many=True))
 
 
 PARTS = [
     Part("fiber", e_case, s_case(quick=True), quick=70, thorough=0, shards=1, quick_shards=8, shrink=False, timeout=60, rule="phi_max >= 5e-3 (quick tier)"),
+    Part("fiber_many", e_many, s_case(quick=True), quick=2, thorough=12, shards=16, quick_shards=4, shrink=False, timeout=120,
+         rule="every case: runs of 5000 and ~20000 split steps (phi_max 2e-3 and 5e-4 at a total nonlinear phase of 9.9 rad)"),
     Part("fiber_deep", e_case, s_case(quick=False), quick=0, thorough=1500, shards=16, shrink=False, timeout=120, rule="phi_max down to 5e-4 (thorough tier)"),
 ]
